@@ -75,7 +75,7 @@ def run_case(acc, case):
     fw = bytes(rng.randrange(256) for _ in range(min(length, 2048)))
     fw = (fw * (length // max(1, len(fw)) + 1))[:length]
     errors = {int(k): s for k, s in case['inject']}
-    dev = dfusim.Device(variant, pattern_seed=5, errors=errors, stall_in_error=case['stall'], error_state=dfusim.DNLOAD_IDLE if case.get('idle_state') else dfusim.ERROR,
+    dev = dfusim.Device(variant, pattern_seed=5, errors=errors, stall_in_error=case['stall'], error_state={True: dfusim.DNLOAD_IDLE, 'idle': dfusim.IDLE, 'busy': dfusim.DNBUSY}[case['idle_state']] if case.get('idle_state') else dfusim.ERROR,
                         default_busy=[rng.choice([0, 1, 50])] * rng.choice([0, 1, 2]))
     if rng.random() < 0.25:
         # the failing operation keeps the device busy for a long time before it reports its error
@@ -94,6 +94,7 @@ def run_case(acc, case):
     acc['ctr']['fault_runs'] += 1
     core.see(acc, 'status_codes', case['inject'][0][1])
     core.see(acc, 'device_behaviour', 'stalls' if case['stall'] else 'keeps answering')
+    core.see(acc, 'state_reported_with_the_error', {None: 'dfuERROR', False: 'dfuERROR', True: 'dfuDNLOAD-IDLE', 'idle': 'dfuIDLE', 'busy': 'dfuDNBUSY, then all-clear'}[case.get('idle_state')])
     if not dev.error_reports:
         if dev.state in (dfusim.DNLOAD_SYNC, dfusim.DNBUSY) and dev.nops in errors and (r.done_printed or r.code == 0):
             # the tool started the operation that was going to fail, stopped asking before the device had answered, and reported success
@@ -176,6 +177,9 @@ def plan(tier, seed):
             for s in (3, 4, 6, 7):
                 # a device that announces the error status but not the dfuERROR state
                 cases.append({'kind': 'fault', 'variant': '4', 'npages': npages, 'inject': [[k, s]], 'stall': False, 'short': 0, 'idle_state': True})
+                # ... or announces it together with dfuIDLE, or together with dfuDNBUSY and answers the next poll with an all-clear
+                cases.append({'kind': 'fault', 'variant': '4', 'npages': npages, 'inject': [[k, s]], 'stall': False, 'short': 0, 'idle_state': 'idle'})
+                cases.append({'kind': 'fault', 'variant': '4', 'npages': npages, 'inject': [[k, s]], 'stall': False, 'short': 0, 'idle_state': 'busy'})
     for npages in (1, 2, 3):
         for k in range(3 * npages):
             for s in VENDOR:
